@@ -1,7 +1,7 @@
 """Translator for C02: every call site, in the functions of the SSDP receive path, of a primitive that may raise on
 attacker-controlled text -> lean/Upnp/Gen/C02Sites.lean
 
-The receive path is the fixed list FUNCTIONS below (a function of that list that disappears is Untranslatable).  In each
+The receive path is the call-graph closure of the entry points ROOTS inside MODULES (see `receive_path`).  In each
 function the translator records, in source order, every occurrence of
 
   int( float( urlsplit( urlparse( ip_address( timedelta( randrange( range( parse_headers(  .decode(  .port  .hostname
@@ -23,32 +23,68 @@ from extract import Untranslatable, generator, lean_str, parse
 CALLS = {"int", "float", "urlsplit", "urlparse", "ip_address", "timedelta", "randrange", "range", "parse_headers", "decode"}
 ATTRS = {"port", "hostname"}
 
-# (file, class or None, function)
-FUNCTIONS: List[Tuple[str, Optional[str], str]] = [
-    ("ssdp.py", None, "get_host_string"), ("ssdp.py", None, "get_adjusted_url"), ("ssdp.py", None, "is_valid_ssdp_packet"),
-    ("ssdp.py", None, "udn_from_usn"), ("ssdp.py", None, "_cached_header_parse"), ("ssdp.py", None, "_cached_decode_ssdp_packet"),
-    ("ssdp.py", None, "decode_ssdp_packet"), ("ssdp.py", "SsdpProtocol", "datagram_received"),
+# The receive path = everything reachable from the entry points below by calls that resolve, BY NAME, to a function or
+# method defined in these modules (an over-approximation: `x.replace(...)` also reaches `CaseInsensitiveDict.replace`);
+# `Cls(...)` reaches `Cls.__init__`, `x[k]` / `x[k] = v` / `del x[k]` reach `__getitem__` / `__setitem__` / `__delitem__`.
+# A new helper called from the receive path is therefore scanned without anybody listing it.
+MODULES: List[Tuple[str, Optional[Set[str]]]] = [
+    ("ssdp.py", None), ("advertisement.py", None), ("search.py", None), ("ssdp_listener.py", None),
+    ("server.py", {"SsdpSearchResponder"}), ("utils.py", {"CaseInsensitiveDict"}),
+]
+ROOTS: List[Tuple[str, Optional[str], str]] = [
+    ("ssdp.py", "SsdpProtocol", "datagram_received"),
     ("advertisement.py", "SsdpAdvertisementListener", "_on_data"),
     ("search.py", "SsdpSearchListener", "_on_data"),
-    ("ssdp_listener.py", None, "valid_search_headers"), ("ssdp_listener.py", None, "valid_advertisement_headers"),
-    ("ssdp_listener.py", None, "valid_byebye_headers"), ("ssdp_listener.py", None, "extract_uncache_after"),
-    ("ssdp_listener.py", None, "extract_valid_to"), ("ssdp_listener.py", None, "same_headers_differ"),
-    ("ssdp_listener.py", None, "headers_differ_from_existing_advertisement"), ("ssdp_listener.py", None, "headers_differ_from_existing_search"),
-    ("ssdp_listener.py", None, "ip_version_from_location"), ("ssdp_listener.py", None, "location_changed"),
-    ("ssdp_listener.py", "SsdpDevice", "add_location"), ("ssdp_listener.py", "SsdpDevice", "purge_locations"),
-    ("ssdp_listener.py", "SsdpDeviceTracker", "see_search"), ("ssdp_listener.py", "SsdpDeviceTracker", "see_advertisement"),
-    ("ssdp_listener.py", "SsdpDeviceTracker", "_see_device"), ("ssdp_listener.py", "SsdpDeviceTracker", "unsee_advertisement"),
-    ("ssdp_listener.py", "SsdpDeviceTracker", "purge_devices"),
     ("ssdp_listener.py", "SsdpListener", "_on_search"), ("ssdp_listener.py", "SsdpListener", "_on_alive"),
     ("ssdp_listener.py", "SsdpListener", "_on_byebye"), ("ssdp_listener.py", "SsdpListener", "_on_update"),
-    ("server.py", "SsdpSearchResponder", "_on_data"), ("server.py", "SsdpSearchResponder", "_build_responses"),
-    ("server.py", "SsdpSearchResponder", "_match_type_versions"), ("server.py", "SsdpSearchResponder", "_matched_devices_by_type"),
-    ("server.py", "SsdpSearchResponder", "_matched_services_by_type"), ("server.py", "SsdpSearchResponder", "_send_responses"),
-    ("utils.py", "CaseInsensitiveDict", "__init__"), ("utils.py", "CaseInsensitiveDict", "_drop_shadowed_keys"),
-    ("utils.py", "CaseInsensitiveDict", "combine_lower_dict"), ("utils.py", "CaseInsensitiveDict", "get_lower"),
-    ("utils.py", "CaseInsensitiveDict", "__setitem__"), ("utils.py", "CaseInsensitiveDict", "__getitem__"),
-    ("utils.py", "CaseInsensitiveDict", "replace"), ("utils.py", "CaseInsensitiveDict", "case_map"), ("utils.py", "CaseInsensitiveDict", "as_dict"),
+    ("server.py", "SsdpSearchResponder", "_on_data"),
 ]
+
+
+def receive_path(repo: Path):
+    """[(file, class, function, node)] in module / source order"""
+    funcs = {}
+    index = {}
+    classes = {}
+    for order, (f, only) in enumerate(MODULES):
+        mod = parse(repo, "async_upnp_client/" + f)
+        for n in mod.body:
+            if isinstance(n, (ast.FunctionDef, ast.AsyncFunctionDef)) and f != "utils.py":
+                funcs[(f, None, n.name)] = (order, n.lineno, n)
+                index.setdefault(n.name, []).append((f, None, n.name))
+            if isinstance(n, ast.ClassDef) and (only is None or n.name in only):
+                classes[n.name] = f
+                for m in n.body:
+                    if isinstance(m, (ast.FunctionDef, ast.AsyncFunctionDef)):
+                        funcs[(f, n.name, m.name)] = (order, m.lineno, m)
+                        index.setdefault(m.name, []).append((f, n.name, m.name))
+    for r in ROOTS:
+        if r not in funcs:
+            raise Untranslatable(f"entry point {r} not found")
+    seen: Set[Tuple[str, Optional[str], str]] = set()
+    todo = list(ROOTS)
+    while todo:
+        k = todo.pop()
+        if k in seen:
+            continue
+        seen.add(k)
+        for n in ast.walk(funcs[k][2]):
+            names: List[str] = []
+            if isinstance(n, ast.Call):
+                nm = n.func.id if isinstance(n.func, ast.Name) else (n.func.attr if isinstance(n.func, ast.Attribute) else None)
+                if nm in classes:
+                    names.append("__init__")
+                    todo += [t for t in index.get("__init__", []) if t[1] == nm]
+                    nm = None
+                if nm:
+                    names.append(nm)
+            elif isinstance(n, ast.Subscript):
+                names.append({ast.Load: "__getitem__", ast.Store: "__setitem__", ast.Del: "__delitem__"}[type(n.ctx)])
+            for nm in names:
+                if nm == "__init__":
+                    continue
+                todo += [t for t in index.get(nm, []) if t not in seen]
+    return [(k[0], k[1], k[2], funcs[k][2]) for k in sorted(seen, key=lambda k: funcs[k][:2])]
 
 
 def _find(mod: ast.Module, cls: Optional[str], fn: str) -> ast.FunctionDef:
@@ -152,16 +188,12 @@ def _sites(fn: ast.FunctionDef) -> List[Tuple[str, str]]:
 
 @generator("C02Sites")
 def gen(repo: Path) -> str:
-    mods = {}
     rows = []
-    for f, cls, fn in FUNCTIONS:
-        if f not in mods:
-            mods[f] = parse(repo, "async_upnp_client/" + f)
-        node = _find(mods[f], cls, fn)
+    for f, cls, fn, node in receive_path(repo):
         q = f"{f[:-3]}:{cls + '.' if cls else ''}{fn}"
         for prim, guard in _sites(node):
             rows.append((q, prim, guard))
-    o = [extract.HEADER.format(src="the receive-path functions listed in tools/gen_c02sites.py"), "namespace Upnp.Gen.C02Sites\n\n"]
+    o = [extract.HEADER.format(src="the functions reachable from the receive-path entry points (tools/gen_c02sites.py)"), "namespace Upnp.Gen.C02Sites\n\n"]
     o.append("/-- (function, primitive, exception classes caught around it inside that function) in source order -/\n")
     o.append("def sites : List (String × String × String) :=\n  [" + ",\n   ".join(
         f"({lean_str(a)}, {lean_str(b)}, {lean_str(c)})" for a, b, c in rows) + "]\n\n")
